@@ -213,7 +213,7 @@ SITES = [
     S("uenumViewLen", "macros/src/items/unsized_.rs", r"set_slice_ptr_len\(__flatty_bytes, (Self::DATA_OFFSET \+ slice_ptr_len\(__flatty_bytes\))\)", [(r"slice_ptr_len\(__flatty_bytes\)", "mlen"), (r"Self::DATA_OFFSET", "doff")], ["doff", "mlen"]),
     # macros/src/items/cast.rs, init.rs: floors that make validation / initialisation agree with the view
     S("ustructValidateFloor", "macros/src/items/cast.rs", r"__flatty_bytes\.get_unchecked\(\.\.(::flatty::utils::floor_mul\(__flatty_bytes\.len\(\), <Self as ::flatty::traits::FlatBase>::ALIGN\))\)", [(r"__flatty_bytes\.len\(\)", "n"), (r"<Self as FlatBase>::ALIGN", "align")], ["n", "align"]),
-    S("uenumValidateFloor", "macros/src/items/cast.rs", r"data\.get_unchecked\(\.\.(::flatty::utils::floor_mul\(data\.len\(\), <Self as ::flatty::traits::FlatBase>::ALIGN\))\)", [(r"data\.len\(\)", "n"), (r"<Self as FlatBase>::ALIGN", "align")], ["n", "align"]),
+    S("uenumValidateFloor", "macros/src/items/cast.rs", r"let data = unsafe \{ __flatty_bytes\.get_unchecked\(Self::DATA_OFFSET\.\.\) \};\s*let data = unsafe \{ data\.get_unchecked\(\.\.(::flatty::utils::floor_mul\(data\.len\(\), <Self as ::flatty::traits::FlatBase>::ALIGN\))\) \};\s*#size_check\s*match tag \{", [(r"data\.len\(\)", "n"), (r"<Self as FlatBase>::ALIGN", "align")], ["n", "align"]),
     # io/src/common/io.rs: the window arithmetic of `Buffer`
     S("ioPrecedingLen", "io/src/common/io.rs", r"fn preceding_len\(&self\) -> usize \{(.*?)\}", [(r"self\.window\.start", "wstart")], ["wstart"]),
     S("ioOccupiedLen", "io/src/common/io.rs", r"fn occupied_len\(&self\) -> usize \{(.*?)\}", [(r"self\.window\.start", "wstart"), (r"self\.window\.end", "wend")], ["wstart", "wend"]),
@@ -253,6 +253,8 @@ GUARDS = [
       [(r"data\.len\(\)", "n"), (r"offset_size", "os")], ["n", "os", "pos"]),
     G("gFlexFillSeal", "containers/src/flex.rs", r"let offset = offset_size \+ payload_size;\s*match L::from_usize\(offset\)\.and_then\(\|o\| if (o [<>=!]+ L::max_value\(\)) \{ Some\(o\) \} else \{ None \}\) \{\s*Some\(o\) => o\.emplace\(&mut \*offset_slot\)\?,\s*None => \{" + ERR,
       [(r"L::max_value\(\)", "lmax"), (r"\bo\b", "off")], ["off", "lmax", "pos"]),
+    G("gEnumVariantRoom", "macros/src/items/cast.rs", r"if (data\.len\(\) [<>=!]+ Self::DATA_MIN_SIZES\[\*tag as usize\]) \{" + ERR,
+      [(r"data\.len\(\)", "n"), (r"Self::DATA_MIN_SIZES\[\*tag as usize\]", "varmin"), (r"Self::DATA_OFFSET", "doff")], ["n", "varmin", "doff"]),
     G("gFlexPushSeal", "containers/src/flex.rs", r"let sealed = L::from_usize\(last_offset\)\s*\.and_then\(\|o\| if (o [<>=!]+ L::max_value\(\)) \{ Some\(o\) \} else \{ None \}\)\s*\.ok_or\(Error \{\s*kind: ErrorKind::(\w+),\s*pos(?:: (.*?))?,\s*\}",
       [(r"L::max_value\(\)", "lmax"), (r"\bo\b", "off")], ["off", "lmax", "pos"]),
 ]
@@ -262,6 +264,7 @@ def C(name, file, rx, subs, nat, flags=re.S):
 _POISON_ZERO = r"if n == 0 \{\s*if (.*?) \{\s*self\.%spoisoned = true;\s*\}\s*return %sErr\(io::ErrorKind::BrokenPipe\.into\(\)\)%s;"
 _POISON_ERR = r"Err\(e\) => \{\s*if (.*?) \{\s*self\.%spoisoned = true;\s*\}\s*return %sErr\(e\)%s;"
 CONDS = [
+    C("cTagInRange", "macros/src/items/tag.rs", r"if (\*tag [<>=!]+ #var_count) \{\s*Ok\(\(\)\)\s*\} else \{\s*Err\(Error \{\s*kind: ErrorKind::InvalidEnumTag,\s*pos: 0,", [(r"\*tag", "tag"), (r"#var_count", "count")], ["tag", "count"]),
     C("cIoWriteLoop", "io/src/blocking/io.rs", r"while (pos [<>=!]+ count) \{", [], ["pos", "count"]),
     C("cIoWriteZero", "io/src/blocking/io.rs", r"Ok\(n\) => \{\s*if (n [<>=!]+ 0) \{", [], ["n"]),
     C("cIoPoisonZero", "io/src/blocking/io.rs", _POISON_ZERO % ("", "", ""), [], ["pos"]),
